@@ -102,14 +102,24 @@ class Roles:
                 for bi, c, t in b.calls():
                     if c.local and c.unsafe and c.adt == v.A and c.body_path in lib.bodies:
                         v.trans[c.body_path] = lib.bodies[c.body_path]
-        # child function(s): local unsafe fns on A called from transition fns
+        # child function(s): the LEAF local unsafe fns on A reached from the transition fns; intermediate private unsafe helpers
+        # (a transition split in two) are neither roles nor anchors: the normal form inlines them into the transition
         v.child = {}
-        for tb in list(v.trans.values()):
+        seen_u = set(v.trans)
+        work = list(v.trans.values())
+        while work:
+            tb = work.pop()
+            outs = []
             for b in lib.with_closures(tb):
                 for bi, c, t in b.calls():
-                    if c.local and c.unsafe and c.adt == v.A and c.body_path in lib.bodies \
-                            and c.body_path not in v.trans:
-                        v.child[c.body_path] = lib.bodies[c.body_path]
+                    if c.local and c.unsafe and c.adt == v.A and c.body_path in lib.bodies and c.body_path not in v.trans:
+                        outs.append(c.body_path)
+            for pth in outs:
+                if pth not in seen_u:
+                    seen_u.add(pth)
+                    work.append(lib.bodies[pth])
+            if not outs and tb.path not in v.trans:
+                v.child[tb.path] = tb
         if v.next and not v.trans:
             ctx.missing(rule, "transition functions of " + v.A)
             v.ok = False
